@@ -24,6 +24,22 @@ type PropDef struct {
 	NotCov    []string `json:"not_covered"`
 	Assume    []string `json:"assumptions"`
 	Bounded   []string `json:"bounded"`
+	// Select restricts, per unit, which obligations count for this property (substring match on the
+	// obligation name); units without an entry count in full.
+	Select map[string][]string `json:"select"`
+}
+
+func (p *PropDef) selected(unit, obl string) bool {
+	pats, ok := p.Select[unit]
+	if !ok || len(pats) == 0 {
+		return true
+	}
+	for _, s := range pats {
+		if strings.Contains(obl, s) {
+			return true
+		}
+	}
+	return false
 }
 
 type KnownFinding struct {
@@ -159,7 +175,7 @@ func cmdCheck(args []string) int {
 		}
 		units = append(units, un)
 		for _, o := range un.obls {
-			if o.Smoke || kindWanted(p, o.Kind) {
+			if (o.Smoke && strings.HasSuffix(o.Name, "smoke:requires")) || (!o.Smoke && kindWanted(p, o.Kind) && p.selected(name, o.Name)) {
 				jobs = append(jobs, &job{un: un, obl: o})
 			}
 		}
